@@ -738,27 +738,6 @@ pub fn c11_oracle(case: &Case) -> Option<(String, Option<&'static str>)> {
         .cloned()
 }
 
-/// matcher of the finding "C11-dotdot-not-relativised": the record is reported with rel == abs
-/// although abs lies under the source dir, and it comes from an absolute path with a ".." segment
-/// that does not canonicalise (a directory on the way does not exist)
-fn unresolved_dotdot(case: &Case, abs: &str, rel: &str, c: &CovResult) -> bool {
-    let sd = match &case.cfg.sd {
-        Some(s) => s,
-        None => return false,
-    };
-    let i = (marker(c) - MARK) as usize;
-    if i >= case.entries.len() || rel != abs || !abs.starts_with(&format!("{}/", sd)) {
-        return false;
-    }
-    let mut cands = vec![case.entries[i].0.replace('\\', "/")];
-    if let Some(m) = &case.cfg.mapping {
-        cands.extend(m.iter().map(|(_, v)| v.clone()));
-    }
-    cands.iter().any(|k| {
-        k.starts_with('/') && k.split('/').any(|s| s == "..") && std::fs::canonicalize(k).is_err()
-    })
-}
-
 pub fn c11_oracle_all(case: &Case) -> Vec<(String, Option<&'static str>)> {
     let mut fails: Vec<(String, Option<&'static str>)> = vec![];
     c11_oracle_inner(case, &mut fails);
@@ -862,20 +841,18 @@ fn c11_oracle_inner(case: &Case, fails: &mut Vec<(String, Option<&'static str>)>
     if let Some(sd) = &cfg.sd {
         if let Ok(csd) = std::fs::canonicalize(sd) {
             let csd = csd.to_str().unwrap().to_string();
-            for (abs, rel, cov) in &neutral {
+            for (abs, rel, _) in &neutral {
                 let p = Path::new(abs);
                 if let Ok(c) = std::fs::canonicalize(p) {
                     let c = c.to_str().unwrap();
                     if let Some(tail) = c.strip_prefix(&format!("{}/", csd)) {
                         if rel != tail {
-                            let f = if unresolved_dotdot(case, abs, rel, cov) { Some("C11-dotdot-not-relativised") } else { None };
-                            fails.push((format!("file {:?} lies under the source dir but is reported as {:?}", c, rel), f));
+                            fails.push((format!("file {:?} lies under the source dir but is reported as {:?}", c, rel), None));
                         }
                     }
                 }
-                if !rel.starts_with('/') && abs.starts_with(&format!("{}/", sd)) && *abs != format!("{}/{}", sd, rel) {
-                    let f = if unresolved_dotdot(case, abs, rel, cov) { Some("C11-dotdot-not-relativised") } else { None };
-                    fails.push((format!("abs {:?} is under the source dir but is not source_dir/rel ({:?})", abs, rel), f));
+                if abs.starts_with(&format!("{}/", sd)) && spec_normalize(sd).as_deref() == Some(sd.as_str()) && *abs != format!("{}/{}", sd, rel) {
+                    fails.push((format!("abs {:?} is under the source dir but is not source_dir/rel ({:?})", abs, rel), None));
                 }
             }
         }
